@@ -295,6 +295,9 @@ def oracle(case, res):
                 elif call <= g and ret != g:
                     out.append(("wait-not-exact", "op %d: wait %d called on time at %d returned at %d, not at t0+%d*P = %d"
                                 % (i, k, call, ret, k, g)))
+                elif call > g and ret != call:
+                    out.append(("overrun-not-caught-up", "op %d: wait %d was called at %d, after its grid point t0+%d*P = %d, and still "
+                                "blocked until %d: the schedule has shifted instead of catching up" % (i, k, call, k, g, ret)))
                 if cur[1] != g + n:
                     out.append(("alarm-off-grid", "op %d: after wait %d the next alarm is %s, the grid point t0+%d*P is %d"
                                 % (i, k, cur[1], k + 1, g + n)))
@@ -305,15 +308,15 @@ def oracle(case, res):
             freed = True
         if freed:
             if cur[1] is not None:
-                out.append(("notifier-armed-after-free", "op %d: after free() the HAL still holds an alarm at %d" % (i, cur[1])))
+                out.append(("notifier-armed-after-free", "op %d: after free()/with-exit the HAL still holds an alarm at %d" % (i, cur[1])))
             if cur[2] != 1:
-                out.append(("handle-not-released-once", "op %d: after free() cleanNotifier was called %d times on the handle" % (i, cur[2])))
+                out.append(("handle-not-released-once", "op %d: after free()/with-exit cleanNotifier was called %d times on the handle (must be exactly once)" % (i, cur[2])))
         prev = cur
     if res["error"]:
         out.append(("exception" if not res["error"].startswith("hang") else "hang",
                     "after %d of %d operations: %s" % (len(res["snaps"]), len(ops), res["error"])))
     # observable timing clauses first, the alarm bookkeeping last
-    rank = {"wait-returned-early": 0, "wait-not-exact": 1, "wait-after-free-blocked": 2, "hang": 3, "exception": 4,
+    rank = {"wait-returned-early": 0, "wait-not-exact": 1, "overrun-not-caught-up": 1, "wait-after-free-blocked": 2, "hang": 3, "exception": 4,
             "handle-not-released-once": 5, "notifier-armed-after-free": 6, "alarm-off-grid": 7}
     out.sort(key=lambda f: rank.get(f[0], 9))
     return out
@@ -383,9 +386,9 @@ def gen_case(r, below):
     t0 = r.choice([0, 1, r.randrange(10 ** 7), r.randrange(10 ** 7), r.randrange(10 ** 9),
                    2 ** 32 + r.randrange(10 ** 6), 2 ** 31 - 1 - r.randrange(3 * n)])
     nw = r.randrange(5, 41)
-    mood = r.choice(["on-time", "mixed", "mixed", "overrun", "zero"])
+    mood = r.choice(["on-time", "mixed", "mixed", "burst", "burst", "burst", "overrun", "zero"])
     use_with = r.random() < 0.4
-    free_at = nw if r.random() < 0.5 else r.randrange(0, nw + 1)
+    free_at = nw if r.random() < 0.65 else max(r.randrange(0, nw + 1), r.randrange(0, nw + 1))
     ops = []
     now, k, freed = t0, 0, False
     for i in range(nw):
@@ -401,6 +404,8 @@ def gen_case(r, below):
             b = 0 if v < 0.8 else r.randrange(0, 3 * n)
         elif mood == "on-time":
             b = r.randrange(0, n) if v < 0.7 else (max(slack, 0) if v < 0.85 else (n if v < 0.95 else 0))
+        elif mood == "burst":           # mostly short bodies, now and then a long one: overrun, then catch-up
+            b = r.randrange(n, 4 * n + 1) if v < 0.15 else (r.randrange(0, n // 2 + 1) if v < 0.9 else max(slack, 0))
         elif mood == "overrun":
             b = r.randrange(n, 5 * n + 1) if v < 0.5 else (r.randrange(1, 6) * n if v < 0.65 else r.randrange(0, n))
         else:
@@ -673,6 +678,7 @@ def _run(ctx, sim):
         ctx.count("period=%s" % ("non-whole-or-rejected" if c["n"] is None else
                                  ("double-below-integer" if int(case_P(c) * 1e6) != c["n"] else "other")))
         ctx.count("waits:blocked-until-grid", f[0])
+        ctx.count("waits:blocked, worker confirmed inside HAL_WaitForNotifierAlarm before the clock moved", res.get("confirmed", 0))
         ctx.count("waits:called-late", f[1])
         ctx.count("waits:catch-up(first on-time after overrun)", f[2])
         ctx.count("waits:after-free", f[3])
